@@ -3,7 +3,28 @@ sys.path.insert(0, os.path.dirname(os.path.dirname(os.path.abspath(__file__))))
 import checklib
 
 
+def regen_twins(ctx):
+    """Hive/Gen/C15_Twins.lean: normalised Trigger/LinkTo bodies of Event, Event1..Event9 (harness/c15/twins)."""
+    out = os.path.join(checklib.LEAN, "Hive", "Gen", "C15_Twins.lean")
+    tmp = os.path.join(ctx.scratch, "C15_Twins.lean")
+    rc, log = checklib.sh(["go", "run", "./c15/twins", tmp, "Hive.Gen.C15Twins",
+                           os.path.join(ctx.repo, "runtime/event/events.go")], cwd=checklib.HARNESS, timeout=600)
+    if rc != 0 or not os.path.exists(tmp):
+        return [{"kind": "twins-normaliser", "detail": checklib.tail(log, 20)}]
+    new = open(tmp).read()
+    with checklib.LakeLock():
+        old = open(out).read() if os.path.exists(out) else None
+        if old != new:
+            open(out, "w").write(new)
+            ctx.notes.append("regenerated Hive/Gen/C15_Twins.lean differs from the previous copy")
+    return []
+
+
 def regen(ctx):
+    return regen_skel(ctx) + regen_twins(ctx)
+
+
+def regen_skel(ctx):
     # the synchronisation skeletons the protocol models of C15 were written against (Hive/Gen/C15_Skel.lean)
     return checklib.regen_skeletons(ctx, [
         "runtime/valuenotifier/listener.go:Listener.Wait",
@@ -47,7 +68,7 @@ SPEC = {
         "C15_skeleton_Notifier_Notify", "C15_skeleton_Notifier_Listener", "C15_skeleton_Event1_OnTrigger",
         "C15_skeleton_Event_Trigger", "C15_skeleton_triggerSettings_currentTriggerExceedsMaxTriggerCount",
         "C15_skeleton_event_linkTo", "C15_skeleton_event_Hook", "C15_skeleton_Hook_Unhook", "C15_skeleton_Event1_Trigger",
-        "C15_skeleton_Event_OnTrigger", "C15_skeleton_uniqueID_Next", "C15_skeleton_triggerSettings_MaxTriggerCountReached",
+        "C15_skeleton_twins_uniform", "C15_skeleton_Event_OnTrigger", "C15_skeleton_uniqueID_Next", "C15_skeleton_triggerSettings_MaxTriggerCountReached",
         "C15_skeleton_type_triggerSettings", "C15_skeleton_Hook_WorkerPool", "C15_skeleton_triggerSettings_hasWorkerPool",
         "C15_skeleton_OrderedMap_ForEach", "C15_skeleton_OrderedMap_Delete", "C15_skeleton_OrderedMap_Set",
     ],
@@ -88,11 +109,12 @@ SPEC = {
                 "values) and C15_notifier_wait_race (any interleaving of Wait/Deregister/Notify/cancel): success only if Notify(value) lies "
                 "between creation and deregistration; witnesses of the two repaired defects replayed on the code. Tie: differential runs of "
                 "the ev/it/mn/pr/vn machines (it: Hook/Unhook/LinkTo from inside callbacks; mn: nested triggers on the counter protocol), "
-                "forced schedules through the verif hook (vr), stress traces (mt/pt/hw/hc/lk/lm/vc) judged by Lean trace predicates, 17 "
-                "regenerated synchronisation skeletons, independent Go oracles for every clause.",
+                "the ar stream over the arity twins Event..Event9, forced schedules through the verif hook (vr), stress traces "
+                "(mt/pt/hw/hc/lk/lm/vc) judged by Lean trace predicates, 21 regenerated synchronisation skeletons / type facts plus "
+                "the uniformity obligation of the ten arity twins, independent Go oracles for every clause.",
         "note": "Trusted: Lean kernel; the hand-written models (tied as described); Go runtime semantics of atomics, select and channels as "
                 "written into the protocol models; a trigger overlapping a re-link is only bounded (0..once per link hook), "
-                "pooled delivery assumes C16's conservation; arities other than Event1 and link cycles not modelled.",
+                "pooled delivery assumes C16's conservation; arities other than Event1 through the uniformity obligation; link cycles not modelled.",
         "technique": "Lean 4 invariant proofs over all histories / all interleavings (Hive.Conc.Sys) + differential correspondence, "
                      "forced schedules and trace predicates",
     },
